@@ -95,6 +95,19 @@ EXC_TYPE_NAME = {
     "unicodeDecode": "UnicodeDecodeError", "stopIteration": "StopIteration",
 }
 
+_FAIL_COUNT: dict[str, int] = {}
+
+
+def _fail(ctx: Any, case: Any, key: str, what: str) -> None:
+    """Report a property failure; at most 3 cases per key reach the (bounded) failure list, the rest are counted."""
+    n = _FAIL_COUNT.get(key, 0) + 1
+    _FAIL_COUNT[key] = n
+    if n <= 3:
+        ctx.fail(case, key, what)
+    else:
+        ctx.notes.setdefault("further_failures_per_key", {})[key] = n - 3
+
+
 # ------------------------------------------------------------------------------------------ service
 
 from vgi_rpc.metadata import CALL_STATE_KEY, CANCEL_KEY, PROTOCOL_VERSION_KEY, STATE_KEY  # noqa: E402
@@ -806,26 +819,26 @@ def oracle(ctx: Any, case: dict[str, Any], c: dict[str, str], obs: dict[str, Any
     st = obs["status"]
     first = defects[0][0] if defects else "none"
     if st >= 500:
-        ctx.fail(case, f"C15:5xx:{c['route']}:{c['body'].split(':')[0]}:{st}", f"status {st} for client-controlled input (class {cls_key(c)})")
+        _fail(ctx, case, f"C15:5xx:{c['route']}:{c['body'].split(':')[0]}:{st}", f"status {st} for client-controlled input (class {cls_key(c)})")
         return
     if st not in allowed:
-        ctx.fail(case, f"C15:status:{st}-for-{'+'.join(sorted({d for d, _ in defects})) or 'valid'}:{c['route']}",
+        _fail(ctx, case, f"C15:status:{st}-for-{'+'.join(sorted({d for d, _ in defects})) or 'valid'}:{c['route']}",
                  f"status {st}, property allows {allowed} (defects {defects}; class {cls_key(c)})")
         return
     want_marker = (not defects) and spec_failed(c)
     if obs["marker"] != want_marker:
-        ctx.fail(case, f"C15:marker:{'set' if obs['marker'] else 'missing'}:{c['route']}:{first}:{c['beh']}",
+        _fail(ctx, case, f"C15:marker:{'set' if obs['marker'] else 'missing'}:{c['route']}:{first}:{c['beh']}",
                  f"X-VGI-RPC-Error is {obs['marker_raw']!r}, should be {'true' if want_marker else 'absent'} (class {cls_key(c)})")
         return
     if st not in (401, 415) and not obs["arrow"]:
-        ctx.fail(case, f"C15:body-not-arrow:{st}:{first}", f"{st} response body is not a decodable Arrow IPC stream "
+        _fail(ctx, case, f"C15:body-not-arrow:{st}:{first}", f"{st} response body is not a decodable Arrow IPC stream "
                  f"(content-type {obs['ctype']!r}; class {cls_key(c)})")
         return
     if obs["marker"] and not obs["has_error_batch"]:
-        ctx.fail(case, f"C15:marker-without-error-batch:{c['route']}", "X-VGI-RPC-Error set but the body carries no EXCEPTION batch")
+        _fail(ctx, case, f"C15:marker-without-error-batch:{c['route']}", "X-VGI-RPC-Error set but the body carries no EXCEPTION batch")
         return
     if obs["dispatched"] and defects:
-        ctx.fail(case, f"C15:dispatched-despite:{first}:{c['route']}", f"method code ran ({obs['calls']}) for a request with defects {defects}")
+        _fail(ctx, case, f"C15:dispatched-despite:{first}:{c['route']}", f"method code ran ({obs['calls']}) for a request with defects {defects}")
 
 
 def check_case(ctx: Any, env: Env, c: dict[str, str], req: dict[str, Any], sub: int, model: dict[str, Any] | None,
@@ -858,15 +871,15 @@ def weak_oracle(ctx: Any, case: dict[str, Any], route: str, obs: dict[str, Any])
     """What holds of *any* POST with good headers whatever the body bytes are."""
     st = obs["status"]
     if st >= 500:
-        ctx.fail(case, f"C15:5xx:{route}:fuzz:{st}", f"status {st} for a mutated request body")
+        _fail(ctx, case, f"C15:5xx:{route}:fuzz:{st}", f"status {st} for a mutated request body")
     elif st not in (200, 400):
-        ctx.fail(case, f"C15:status:{st}-for-mutated-body:{route}", f"status {st} for a mutated body with good headers (only 200/400 possible)")
+        _fail(ctx, case, f"C15:status:{st}-for-mutated-body:{route}", f"status {st} for a mutated body with good headers (only 200/400 possible)")
     elif not obs["arrow"]:
-        ctx.fail(case, f"C15:body-not-arrow:{st}:fuzz", "response body is not a decodable Arrow IPC stream")
+        _fail(ctx, case, f"C15:body-not-arrow:{st}:fuzz", "response body is not a decodable Arrow IPC stream")
     elif obs["marker"] and (st != 200 or not obs["dispatched"]):
-        ctx.fail(case, f"C15:marker:set:{route}:fuzz", f"X-VGI-RPC-Error on a response whose request never reached method code (status {st})")
+        _fail(ctx, case, f"C15:marker:set:{route}:fuzz", f"X-VGI-RPC-Error on a response whose request never reached method code (status {st})")
     elif st == 400 and obs["dispatched"]:
-        ctx.fail(case, f"C15:dispatched-despite:malformed:{route}", "400 but method code ran")
+        _fail(ctx, case, f"C15:dispatched-despite:malformed:{route}", "400 but method code ran")
 
 
 # ------------------------------------------------------------------------------------------ run
@@ -977,6 +990,7 @@ def _setup(ctx: Any) -> tuple[Env, ParsePool, dict[str, tuple[bytes, str]]]:
 
 
 def run(ctx: Any) -> None:
+    _FAIL_COUNT.clear()
     import random
 
     env, pool, bases = _setup(ctx)
@@ -1024,7 +1038,7 @@ def run(ctx: Any) -> None:
             if cls.startswith("unmodelled:"):
                 ctx.mismatch(case, {"ParseExc": PARSE_EXC}, {"raised": cls}, "pyarrow raised a class outside the model's closed list")
             elif obs["status"] < 500 and (obs["status"] != 400 or obs["dispatched"]):
-                ctx.fail(case, f"C15:status:{obs['status']}-for-malformed:{route}", f"body that fails to read ({cls}) answered {obs['status']}")
+                _fail(ctx, case, f"C15:status:{obs['status']}-for-malformed:{route}", f"body that fails to read ({cls}) answered {obs['status']}")
             elif not late and obs["status"] == 400 and EXC_TYPE_NAME.get(cls) and obs["err_type"] != EXC_TYPE_NAME[cls]:
                 ctx.mismatch(case, {"exception": EXC_TYPE_NAME[cls]}, {"exception": obs["err_type"]},
                              "exception class: harness prediction vs server")
@@ -1045,7 +1059,7 @@ def replay(ctx: Any, case: dict[str, Any]) -> None:
         weak_oracle(ctx, case, route, obs)
         st, cls = classify_read(body, route)
         if st == "fail" and obs["status"] < 500 and obs["status"] != 400:
-            ctx.fail(case, f"C15:status:{obs['status']}-for-malformed:{route}", f"body that fails to read ({cls}) answered {obs['status']}")
+            _fail(ctx, case, f"C15:status:{obs['status']}-for-malformed:{route}", f"body that fails to read ({cls}) answered {obs['status']}")
         return
     c = case["cls"]
     tag = "full" if ctx.tier == "thorough" else "q"
